@@ -305,6 +305,26 @@ impl<'a> LuaGen<'a> {
             }
             13 => {
                 self.bump("numeric_for");
+                if self.r.chance(1, 6) {
+                    // loops whose bodies are empty (or hold a comment only), one inside a function literal in the header of
+                    // the other: the scope bookkeeping of both is pending at the same time
+                    self.bump("empty_loops_nested_through_header");
+                    let v = self.local_name();
+                    let w = self.local_name();
+                    let inner = match self.r.below(3) {
+                        0 => format!("for {w} in pairs({{}}) do end"),
+                        1 => format!("for {w} = 1, 2 do end"),
+                        _ => format!("for {w} = 1, 2 do\n{i}    -- nothing\n{i}  end"),
+                    };
+                    let lam = format!("(function()\n{i}  {inner}\n{i}  return {}\n{i}end)()", self.expr(1));
+                    let body = if self.r.chance(1, 2) { String::new() } else { format!("{i}  -- nothing\n") };
+                    return match self.r.below(4) {
+                        0 => format!("{i}for {v} = {lam}, 3 do\n{body}{i}end\n"),
+                        1 => format!("{i}for {v} = 1, {lam} do\n{body}{i}end\n"),
+                        2 => format!("{i}for {v} = 1, 3, {lam} do\n{body}{i}end\n"),
+                        _ => format!("{i}for {v} in {lam} do\n{body}{i}end\n"),
+                    };
+                }
                 let v = self.local_name();
                 let step = if self.r.chance(1, 3) { format!(", {}", self.expr(1)) } else { String::new() };
                 format!("{i}for {v} = {}, {}{step} do\n{}{i}end\n", self.expr(2), self.expr(2), self.block(depth - 1, ind + 1))
@@ -433,6 +453,8 @@ pub fn gen_program(r: &mut Rng, budget: usize, depth: usize) -> (String, std::co
             &["v", "V", "va", "val", "v_", "_v"][..],
             // spellings that merely end in / extend a name some lint treats specially
             &["spairs", "xipairs", "nexts", "types", "selfs", "requires"][..],
+            // the bare `_` and names that merely start with it (ignore patterns: `^_`, `^_$`)
+            &["_", "_a", "__", "_1", "a_", "_x"][..],
         ]))
         .to_vec();
         g.bump("confusable_name_pool");
